@@ -29,6 +29,11 @@ def run(ctx):
             rule_P4_bound(ctx, cls)
     rule_P8(ctx)
     k13 = rule_P13(ctx)
+    from ..effects import rule_G2
+    rule_G2(ctx)      # every restored network / member is its own object
+    from ..memo import rule_K2
+    rule_K2(ctx, classes={'Union', 'NautilusBound', 'Ellipsoid', 'UnitCubeEllipsoidMixture',
+                          'NeuralBound', 'UnitCube', 'NeuralNetworkEmulator', 'PhaseShift'})
     ctx.require(k13 >= 1, 'P13: layer loops of the emulator writer / reader not found')
     k11 = rule_P11(ctx)
     ctx.require(k11 >= 2, 'P11 found no class dispatch on a stored tag (floor: Union.read)')
